@@ -470,9 +470,20 @@ def accepts (s : SchemaD) : Bool := (validate s true).isEmpty
 
 /-! ### the `_is_valid` cache as a state machine -/
 
+/-- The cached verdict and what it stands for. In the code the verdict is stored next to a FINGERPRINT
+    (`_validated_resolvers = _current_resolvers()`): the resolver callables of the schema, of every object / interface
+    type and of every field, and the argument objects of every field, compared BY IDENTITY (`_same_objects`: `is`).
+    The machine does not carry the fingerprint as data: every operation that (re)assigns a callable or an argument list
+    says through its `same` / `seen` flag whether the object handed in IS the one the fingerprint holds, and the step
+    function resets `isValid` exactly when it is not. This is faithful under ONE assumption, which the code meets
+    because the fingerprint holds REFERENCES: a resolver identity recorded in the fingerprint stays alive as long as the
+    state refers to it, so "another object" and "another identity" are the same thing. A fingerprint made of `id()`
+    numbers would break the assumption (a dropped callable can be freed and an incompatible one allocated at the same
+    address, seeded change C13-11): address reuse is OUTSIDE the model and is covered by the correspondence stream M
+    (`address_reuse_case` in harness/corr/C13.py: drop, re-allocate until the address collides, assign, validate). -/
 structure CacheState where
   schema : SchemaD
-  /-- `_is_valid is True` (`false` = `None`; the code never stores `False`) -/
+  /-- `_is_valid is True` (`false` = `None`; the code never stores `False`) AND the fingerprint is current -/
   isValid : Bool := false
   /-- keys of `ResolverMap.resolvers`, `.default_resolvers`, `.subscriptions` -/
   regResolvers : List (String × String) := []
@@ -497,6 +508,14 @@ inductive Op where
       `fix_type_references` when a deletion made it remove members (only exercised, taken from the live object). -/
   | replaceTypes (entries : List (String × Option TypeD × Bool))
       (dirEntries : List (String × Option DirectiveD × Bool) := []) (healed : Option SchemaD := none)
+  /-- the remaining public setters of types.py / schema.py, which change the STRUCTURE by plain assignment:
+      `Field.type`, `InputValue.type`, `InputValue.default_value` (set / del), `fields` (object, interface, input
+      object), `ObjectType.interfaces`, `UnionType.types`, the `type` of a list / non-null wrapper, `name`,
+      `Schema.query_type` ...: the description becomes `s'`. `seen`: the assignment changes the tuple
+      `Schema._current_resolvers()` that `validate()` compares by identity (resolver callables; per field of an object
+      / interface type its argument objects with their `python_name`, `has_default_value` and `type` object; the NUMBER
+      of fields and of such types) - only then is the verdict recomputed. -/
+  | assignStructure (s' : SchemaD) (seen : Bool)
   deriving Repr, Inhabited
 
 inductive Outcome where
@@ -660,6 +679,9 @@ def step (st : CacheState) : Op → CacheState × Outcome
     ({ st with schema := setFieldArgs st.schema tn fn args, isValid := st.isValid && !cfgCacheTracksArguments }, .ok)
   | .replaceTypes entries dirEntries healed =>
     replaceStep replaceAccumulates replaceAtomic replaceDirectivesBust st entries dirEntries healed
+  | .assignStructure s' seen =>
+    -- nothing but the `_current_resolvers()` comparison of `validate()` notices a plain assignment
+    ({ st with schema := s', isValid := st.isValid && !seen }, .ok)
 
 def run (st : CacheState) : List Op → CacheState
   | [] => st
